@@ -268,6 +268,21 @@ def run(ctx) -> None:
     xres = pmap(_cross, [(c,) for c in chunks(combos("python", False, 0), 4)])
     for r in res + xres:
         ctx.merge_bucket(r["vb"])
+    # device level: the keyboard matrix saved and reloaded at every position of long press/hold/release/strobe scripts and at
+    # every state of a BFS whose alphabet contains the snapshot (C14's drivers and reference automaton; snapshot = identity)
+    from . import c14
+    py_cfgs = [(ah, p, r, d, i) for ah in (True, False) for (p, r, d, i) in ((1, 1, 1, 1), (2, 2, 2, 1), (2, 1, 3, 2))]
+    rs_cfgs = [(ah, p, 6, 24, 6) for ah in (True, False) for p in (1, 2)]
+    kres = pmap(c14._scripted_snap, [("python", c) for c in py_cfgs] + [("rust", c) for c in rs_cfgs])
+    kbfs = pmap(c14._bfs, [("python", c, 5 if ctx.thorough else 4, [("snap",)]) for c in py_cfgs[:2] + py_cfgs[3:4]] +
+                [("rust", c, 4 if ctx.thorough else 3, [("snap",)]) for c in rs_cfgs[:2]])
+    for r in kres + kbfs:
+        for sig, (cnt, wl) in r["vb"].d.items():
+            for what, wit in wl[:1]:
+                w2 = dict(wit) if isinstance(wit, dict) else dict(wit())
+                w2["kbd_device"] = True
+                ctx.violation("C16/keyboard-device/" + sig.split("/", 1)[1], what, w2)
+    ctx.coverage["keyboard_device_snapshot_runs"] = sum(r["n"] for r in kres) + sum(r["transitions"] for r in kbfs)
     ctx.level = "fault_enumeration"
     pts = sum(r["points"] for r in res)
     runs = sum(r["runs"] for r in res + xres)
@@ -292,6 +307,9 @@ def run(ctx) -> None:
 def replay(ctx, w) -> Optional[str]:
     rb.build()
     vb = VB()
+    if w.get("kbd_device"):
+        from . import c14
+        return c14.replay(ctx, w)
     p, hn, imr_s, t_s = w["config"].split("|")
     combo = (p, hn, int(imr_s.split("=")[1], 16), tuple([bool(int(t_s.split("=")[1].split(",")[0]))] + [int(x) for x in t_s.split("=")[1].split(",")[1:]]))
     if w.get("cross"):
